@@ -4,6 +4,7 @@
   Written from the property text, independently of checkEventLevels / checkUserLevels.
 -/
 import VModel.Auth
+import VModel.AuthRules
 namespace V.AuthSpec
 open V V.Json V.GoJson V.Auth
 
@@ -25,16 +26,26 @@ def noEscalationB (L : Int) (sender : Bytes) (old new : PowerLevels) (notificati
     o == n || (n ≤ L && o ≤ L))
   named.all okPair && evs && users && notif
 
-/-- Specification verdict for a power-levels event given the auth events: `some false` = the property forbids
+/-- "in version 10 and later never contains a non-integer level": the content of a power-levels event of a version
+    with integer-only levels (the room-version pages' switch, `AuthRules.specVersion?` — not the library's table) fails
+    the independent predicate `AuthRules.integerContent` -/
+def nonIntegerLevels (e : Event) : Bool :=
+  match AuthRules.specVersion? e.ver with
+  | some sv => sv.integerLevels && !AuthRules.integerContent e.content
+  | none => false
+
+/-- Specification verdict for a power-levels event given the auth events: `some true` = the property forbids
     accepting it; `none` = the invariant alone does not decide (other rules may still reject). -/
 def plMustReject (e : Event) (p : Provider) : Option Bool :=
+  if nonIntegerLevels e then some true else
   match (({} : Ctx).update p) with
   | .error _ => none
   | .ok ctx =>
     match powerLevelsFromEvent e, ctx.userPowerLevel e.sender with
     | .ok newPL, .ok L =>
-      let notif := match e.row with
-        | some r => r.checkPowerLevelEvent != "checkPowerLevelEventV1"
+      -- notification levels count from version 6 (the room-version pages' switch, not the regenerated code column)
+      let notif := match AuthRules.specVersion? e.ver with
+        | some sv => sv.notifications
         | none => false
       if noEscalationB L e.sender ctx.pl newPL notif then none else some true
     | _, _ => none
